@@ -34,6 +34,69 @@ theorem C12_tree (cx : Ctx) (n i : Nat) (a : AMode) (m : RMode) (r : Ret) (cls :
     simp
   · simp [hok]
 
+mutual
+theorem noLeafT (cls : Nat → Cls) (hb : ∀ i, cls i ≠ .leaf) : ∀ t : Invoc, leafOKT cls t = true
+  | .mk i a m res b e kids => by
+    simp only [leafOKT, Bool.and_eq_true]
+    refine ⟨?_, noLeafL cls hb kids⟩
+    cases hc : cls i with
+    | leaf => exact absurd hc (hb i)
+    | branch => rfl
+    | sel s => rfl
+theorem noLeafL (cls : Nat → Cls) (hb : ∀ i, cls i ≠ .leaf) : ∀ ts : List Invoc, leafOKL cls ts = true
+  | [] => rfl
+  | t :: ts => by simp [leafOKL, noLeafT cls hb t, noLeafL cls hb ts]
+end
+
+/-- **…with the real classification, unconditionally.**  For the classification that parse_tree.hpp computes
+    at compile time (`clsOf`: selected / `is_leaf< 8 >` / bookkeeping branch) and grammars without action
+    classes that carry a `match()` of their own, the side condition always holds: every invocation tree of
+    the model respects the rule table (`run_dyn`), and `is_leaf` — a bounded search of the static rule
+    graph that gives up (answers "not a leaf") at depth 8 or on recursion — is sound on every such tree
+    (`leafOK_of_dynT`).  So the leaf optimisation never changes the tree. -/
+theorem C12_tree_static (cx : Ctx) (hnw : NoWraps cx) (selMap : Nat → Option Sel) (n i : Nat) (a : AMode) (m : RMode) (r : Ret)
+    (h : parseTop cx n i a m = some r) :
+    ∃ t : Invoc, proj r.raw = t.flat ∧ t.id = i ∧ t.res = r.res.code ∧
+      buildTree (clsOf cx.g selMap) (decide (r.res = .ok)) r.raw =
+        if r.res = .ok then some (specT (clsOf cx.g selMap) t) else none := by
+  obtain ⟨t, ht, hi, hr, -, -, hd⟩ := run_dyn cx hnw n i a m {} cx.start r h
+  refine ⟨t, ht, hi, hr, ?_⟩
+  have hl := leafOK_of_dynT cx.g selMap t hd
+  unfold buildTree
+  by_cases hok : r.res = .ok
+  · simp only [hok, decide_true, if_true]
+    rw [runTree_proj, ht, run_specT _ t ⟨default, []⟩ [] hl]
+    simp
+  · simp [hok]
+
+/-- The classification without the optimisation: every unselected rule does the bookkeeping. -/
+def clsPlain (g : Grammar) (selMap : Nat → Option Sel) (j : Nat) : Cls :=
+  match selOf g selMap j with
+  | some s => .sel s
+  | none => .branch
+
+/-- **The optimisation is invisible**: with and without it the same tree is built. -/
+theorem C12_leaf_optimisation_invisible (cx : Ctx) (hnw : NoWraps cx) (selMap : Nat → Option Sel) (n i : Nat) (a : AMode)
+    (m : RMode) (r : Ret) (h : parseTop cx n i a m = some r) :
+    buildTree (clsOf cx.g selMap) (decide (r.res = .ok)) r.raw =
+      buildTree (clsPlain cx.g selMap) (decide (r.res = .ok)) r.raw := by
+  obtain ⟨t, ht, -, -, -, -, hd⟩ := run_dyn cx hnw n i a m {} cx.start r h
+  have hl := leafOK_of_dynT cx.g selMap t hd
+  have hl' : leafOKT (clsPlain cx.g selMap) t = true :=
+    noLeafT _ (by intro j; simp only [clsPlain]; split <;> simp) t
+  have same : SameSel (clsOf cx.g selMap) (clsPlain cx.g selMap) := by
+    intro j s
+    simp only [clsOf, clsPlain]
+    cases selOf cx.g selMap j with
+    | some s' => simp
+    | none => simp; split <;> simp
+  unfold buildTree
+  by_cases hok : r.res = .ok
+  · simp only [hok, decide_true, if_true]
+    rw [runTree_proj (clsOf cx.g selMap), runTree_proj (clsPlain cx.g selMap), ht,
+      run_specT _ t ⟨default, []⟩ [] hl, run_specT _ t ⟨default, []⟩ [] hl', specT_sameSel _ _ same t]
+  · simp [hok]
+
 /-- A tree is returned if and only if the plain parse succeeds. -/
 theorem C12_iff (cx : Ctx) (n i : Nat) (a : AMode) (m : RMode) (r : Ret) (cls : Nat → Cls)
     (h : parseTop cx n i a m = some r)
@@ -86,20 +149,6 @@ theorem C12_discard_empty_some (n : TNode) (kids : Forest) (h : kids ≠ []) :
   | cons k ks => simp [transformNode, mkNode]
 
 /-! ### the leaf optimisation: sound whenever no selected rule is invoked below a `leaf` rule -/
-
-mutual
-theorem noLeafT (cls : Nat → Cls) (hb : ∀ i, cls i ≠ .leaf) : ∀ t : Invoc, leafOKT cls t = true
-  | .mk i a m res b e kids => by
-    simp only [leafOKT, Bool.and_eq_true]
-    refine ⟨?_, noLeafL cls hb kids⟩
-    cases hc : cls i with
-    | leaf => exact absurd hc (hb i)
-    | branch => rfl
-    | sel s => rfl
-theorem noLeafL (cls : Nat → Cls) (hb : ∀ i, cls i ≠ .leaf) : ∀ ts : List Invoc, leafOKL cls ts = true
-  | [] => rfl
-  | t :: ts => by simp [leafOKL, noLeafT cls hb t, noLeafL cls hb ts]
-end
 
 /-- With every unselected rule classified `branch` (no optimisation) the side condition is vacuous: the
     optimisation can only matter through `leafOKT`. -/
